@@ -53,6 +53,10 @@ type RunnerResult struct {
 	ParseErrors map[string]*parser.ParseError
 
 	Vcl *VCL
+
+	// The error which stopped linting. In JSON mode it is reported inside of the result
+	// (e.g. ParseErrors) instead of being returned, but the command still must fail.
+	err error
 }
 
 type StatsResult struct {
@@ -186,6 +190,7 @@ func (r *Runner) Run(rslv resolver.Resolver) (*RunnerResult, error) {
 		LintErrors:  r.lintErrors,
 		ParseErrors: r.parseErrors,
 		Vcl:         vcl,
+		err:         err,
 	}, nil
 }
 
